@@ -4,6 +4,7 @@ import Tfv.Proofs.InferNoInternalTop
 import Tfv.Spec.HistoryShiftConstr
 import Tfv.Proofs.ResolvedElimCheck
 import Tfv.Proofs.WildConstr
+import Tfv.Proofs.FuelStableUse
 /-!
 # tfv-inv — the hypotheses of the engine theorems, checked on the runs the correspondence check makes
 
@@ -19,7 +20,7 @@ Input: the protocol lines of the driver (`lang`, `infer`; other lines are ignore
 `OkStoreC` and `Chains` are invariants of the engine (theorems `…_keeps`), so x and y can only be T unless a checker is
 incomplete; `Acyclic` is a hypothesis of the witness theorems that the engine does not establish, so z says whether those
 theorems applied to the run. A fourth character reports `historyStable` (T/F, `-` = arguments not concrete): the decidable hypothesis under
-which `C16s_history_independent_partial` says the run behind ANY history is the fresh run shifted. A fifth character is the wildcard certificate `subsStrictB` on the last store reached (`C03w_certificate_sound`). Two numbers follow: the resolved
+which `C16s_history_independent_partial` says the run behind ANY history is the fresh run shifted. A fifth character is the wildcard certificate `subsStrictB` on the last store reached (`C03w_certificate_sound`). A sixth character is `useSafe` (T/F, `-` = arguments not concrete). Two numbers follow: the resolved
 elimination records of the final store and how many of them the verified monitor `elimHoldsB` accepts (`elimMonitor`).
 -/
 namespace Tfv
@@ -74,6 +75,14 @@ def historyStable (L : Lang) (s : Schema) (args : List (Nat × Term)) : Option B
     some ([(3, 1), (17, 5), (100, 40)].all fun (kv, kc) => reprStr (useSchemaE L kv kc engineFuel true {} s xs) == base)
   else none
 
+/-- `useSafe` (Tfv/Proofs/FuelStableUse.lean): at every fuelled helper call of the fresh run the binding chains end, the terms walked have
+resolved depth at most 63 and the constraint closure has stabilised - by `C16d_history_independent_partial` the use then gives the fresh
+outcome shifted behind EVERY history; it is also the model's domain of fidelity (beyond it the fuels give up where Python keeps recursing) -/
+def fuelSafe (L : Lang) (s : Schema) (args : List (Nat × Term)) : Option Bool :=
+  if args.all (fun a => a.1 == 0) && Term.closedL (args.map (·.2)) then
+    some (Tfv.C16D.useSafe L engineFuel true s (args.map (·.2)))
+  else none
+
 partial def invLoop (h : IO.FS.Stream) (out : IO.FS.Stream) (st : DState) : IO Unit := do
   let line ← h.getLine
   if line.isEmpty then return ()
@@ -87,7 +96,9 @@ partial def invLoop (h : IO.FS.Stream) (out : IO.FS.Stream) (st : DState) : IO U
         let f (x : Bool) := if x then "T" else "F"
         let h := match historyStable st.lang s args with
           | some true => "T" | some false => "F" | none => "-"
-        out.putStrLn s!"inv {n} {f a}{f b}{f c}{h}{f wc} {em} {eh}"
+        let fs := match fuelSafe st.lang s args with
+          | some true => "T" | some false => "F" | none => "-"
+        out.putStrLn s!"inv {n} {f a}{f b}{f c}{h}{f wc}{fs} {em} {eh}"
       | _, _ => out.putStrLn "bad-line"
       invLoop h out st
     | .list (.atom "lang" :: _) =>
